@@ -314,16 +314,15 @@ func (n *RootNode) Remove(ctx context.Context, req *fuse.RemoveRequest) (err err
 	}
 }
 
-// ForgetNode removes the node from the node map.
+// ForgetNode is called when the kernel has forgotten the node. The node stays
+// in the node map: the FUSE server drops a forgotten node from its own tables
+// before it calls Forget, so a concurrent lookup of the same name can be
+// answered from the map and register the node again in between. Removing the
+// name after that left a live kernel inode which the invalidation calls (they
+// find nodes by name) no longer reached, and its page cache went stale. A
+// cached node whose file is gone fails the lookup through its Attr.
 func (n *RootNode) ForgetNode(node fs.Node) {
 	verifBeforeForgetNode(node)
-	n.mu.Lock()
-	defer n.mu.Unlock()
-	for k, v := range n.nodes {
-		if v == node {
-			delete(n.nodes, k)
-		}
-	}
 }
 
 // ForgetNodeByName removes the node from the node map by name.
